@@ -8,6 +8,7 @@ CONSTANTS
   Variants1 = {"ok", "okb"}
   Variants2 = {"ok"}
   LoadSteps = {1}
+  MaxFiles = 4
 INVARIANTS Emit
 VIEW View
 CHECK_DEADLOCK FALSE
